@@ -1,4 +1,4 @@
-From Coq Require Import List Arith Lia Bool PeanoNat.
+From Coq Require Import List Arith Lia Bool PeanoNat Permutation Wf_nat.
 Import ListNotations.
 
 Section Heap.
@@ -248,7 +248,34 @@ Proof.
       intros p c Hc Hpc Hci. destruct (Nat.eq_dec p i) as [-> | Hpi]; [|apply Hpre; auto].
       apply (le_trans _ (nth j s d)); [exact E|apply Hjk; auto].
 Qed.
+
+(* ---- the root of a heap precedes nothing: Peek/Pop return a minimum ---- *)
+Lemma le_refl_ a : le a a.
+Proof. unfold le. destruct (lt a a) eqn:E; auto. pose proof (lt_asym a a E). congruence. Qed.
+
+Theorem root_is_min s n : heap_ok s n -> forall j, j < n -> le (nth 0 s d) (nth j s d).
+Proof.
+  intros Hh. induction j as [j IH] using lt_wf_ind. intros Hj.
+  destruct j as [|j']; [apply le_refl_|].
+  destruct (parent_child (S j') ltac:(lia)) as [Hc Hlt].
+  apply (le_trans _ (nth ((S j' - 1) / 2) s d)).
+  - apply IH; lia.
+  - apply Hh; auto.
+Qed.
+
+(* swaps only permute: nothing is lost or duplicated by up/down/fix *)
+Lemma upd_nth_perm_swap s i j : i < length s -> j < length s -> Permutation (swap s i j) s.
+Proof.
+  intros Hi Hj. apply Permutation_sym. apply Permutation_nth with (d := d). split; [apply swap_length|].
+  exists (fun k => if Nat.eqb k j then i else if Nat.eqb k i then j else k).
+  repeat split.
+  - intros k Hk. destruct (Nat.eqb_spec k j); [lia|]. destruct (Nat.eqb_spec k i); lia.
+  - intros a b Ha Hb. destruct (Nat.eqb_spec a j), (Nat.eqb_spec a i), (Nat.eqb_spec b j), (Nat.eqb_spec b i); lia.
+  - intros k Hk. rewrite nth_swap by auto. destruct (Nat.eqb_spec k j); [reflexivity|]. destruct (Nat.eqb_spec k i); reflexivity.
+Qed.
 End Heap.
 Print Assumptions fix_heap.
 Print Assumptions push_heap.
 Print Assumptions down_from_root.
+Print Assumptions root_is_min.
+Print Assumptions upd_nth_perm_swap.
